@@ -260,7 +260,7 @@ class C01(Check):
             '(10% arbitrary floats); oracle = independent clock model + probe monotonicity. '
             'non-trivial = program has >=2 activities resuming at one date, or a past/now date, '
             'or a zero delay, or a never-wait; distinct by sha1 of the canonical program.')
-    budgets = {'quick': dict(examples=1600, procs=4), 'thorough': dict(examples=40000, procs=16)}
+    budgets = {'quick': dict(examples=1600, procs=4), 'thorough': dict(examples=160000, procs=16)}
     level_text = ('Generated-program search against an independent clock model: every timed resume, block '
                   'exit and child start of every generated program must happen at exactly the modelled date; '
                   'clock monotone at every activation. Bounded by program size (<=6 activities x 8 steps, '
